@@ -130,6 +130,10 @@ class Gen:
         return out
 
     def filler_field(self, w, names):
+        if self.o.java_safe and w in (24, 40, 48, 56):
+            # R1: Utils.get24/40/48/56 are broken; never emit a field of exactly these widths
+            a = self.rng.randint(1, 7)
+            return self.filler_field(a, names) + ",\n  " + self.filler_field(w - a, names)
         r = self.rng.random()
         if r < 0.55 or w > 64:
             n = self.fresh("s")
@@ -176,7 +180,7 @@ class Gen:
         need = sum(w for _, w in headers)
         if total is None:
             lo = max(8, (need + 7) // 8 * 8)
-            choices = [t for t in (BYTE_WIDTHS if not self.o.java_safe else [8, 16, 32]) if t >= lo]
+            choices = [t for t in (BYTE_WIDTHS if not self.o.java_safe else [8, 16]) if t >= lo]
             if not choices:
                 raise ValueError("headers too wide")
             total = self.rng.choice(choices[:4])
@@ -203,7 +207,7 @@ class Gen:
     def size_width(self, maxw=None):
         c = [1, 2, 3, 4, 5, 7, 8, 8, 9, 12, 16, 16, 24, 32]
         if self.o.java_safe:
-            c = [3, 4, 5, 7, 8, 8, 12, 16]
+            c = [3, 4, 5, 7]      # R3: size/count fields are read as signed: keep them below 2^7
         if self.o.narrow_counts:
             c = [x for x in c if x < 24]
         if self.o.wide_size_fields:
@@ -234,6 +238,15 @@ class Gen:
         if must_payload or (allow_payload and o.payload and rng.random() < 0.5):
             pos = rng.randint(0, len(items))
             items.insert(pos, "payload")
+        if o.java_safe:
+            # the Java back end mishandles a second dynamically sized field in one declaration
+            # (NegativeArraySizeException) and arrays next to payloads: at most one of them
+            seen_dyn = False
+            for k, it in enumerate(items):
+                if it in ("array", "payload", "typedef"):
+                    if seen_dyn:
+                        items[k] = "chunk"
+                    seen_dyn = True
         # only the last dynamic item may be undelimited
         last_var = max([i for i, k in enumerate(items) if k in ("array", "payload")] or [-1])
         if (not allow_payload or tail_static) and not o.greedy_structs:
@@ -506,7 +519,7 @@ class Gen:
                 # would overlap with its siblings' (semantically ambiguous description)
                 want_payload = level < depth and rng.random() < 0.6 and (bool(cons) or sole_alias)
                 if rng.random() < 0.3 and not want_payload:
-                    nbytes = rng.choice([1, 2, 3, 4])
+                    nbytes = rng.choice([1, 2, 3, 4] if not self.o.java_safe else [1, 2, 4])
                     fs = ["%s: %d" % (self.fresh("s"), 8 * nbytes)]
                     self.features.add("inherit_const_size")
                 elif want_payload and self.o.copy_parents:
